@@ -119,7 +119,7 @@ class Link:
         body = b""
         if self.corr:
             body += tlv(0x01, uint(self.corr))
-        body += tlv({"imprint": 0x02, "legacy": 0x03, "meta": 0x04}[self.kind], self.data)
+        body += tlv({"imprint": 0x02, "legacy": 0x03, "meta": 0x04, "raw": 0x02}[self.kind], self.data)
         return tlv(0x07 if self.left else 0x08, body)
 
 
